@@ -1,11 +1,11 @@
-\* C14 long walks (tlc -simulate num=N -depth 210): the writer may fail at every third call
+\* C14 behaviours: (kind x fault) -> kind, every pair, every configuration
 CONSTANTS
   Bug = "none"
   ConfigNames = {"v1", "n1", "v2d", "n2d", "v3dd", "v1i", "s2d", "sn1", "wf", "ws", "wg"}
-  Depth = 200
+  Depth = 2
   Configs = {"v1", "n1", "v2d", "n2d", "v3dd", "v1i", "s2d", "sn1", "wf", "ws", "wg"}
-  FaultAt = {}
-  FaultMod = 3
+  FaultAt = {0}
+  FaultMod = 0
   NoHuge = {}
 SPECIFICATION RSpec
 INVARIANT Emit
